@@ -21,10 +21,8 @@ def known_class(info, entry):
     if r in CONE_RULES and info.get("in_cone") is False:
         return "K_main_file_only"
     # (the library entry point runs the interface verifier since its repair: no class of its own)
-    if r == "objarr_two":
-        return "K_two_objarr"
-    if r == "objarr_objstruct_array_small" and info.get("dir") == "in":
-        return "K_in_array_small_objstruct"
+    # (a second object array of one direction and an input array of a small object-bearing struct
+    # are rejected since their repairs: no classes of their own)
     return None
 
 
